@@ -230,6 +230,40 @@ def ambient():
             "import hooks": [len(sys.meta_path), len(sys.path_hooks)]}
 
 
+def _freeze(v, depth=0):
+    """order-independent, interpreter-independent rendering of a table"""
+    if depth > 6:
+        return "..."
+    if isinstance(v, dict):
+        return ["dict"] + sorted([[_freeze(k, depth + 1), _freeze(x, depth + 1)] for k, x in v.items()], key=repr)
+    if isinstance(v, (set, frozenset)):
+        return ["set"] + sorted([_freeze(x, depth + 1) for x in v], key=repr)
+    if isinstance(v, (list, tuple)):
+        return [type(v).__name__] + [_freeze(x, depth + 1) for x in v]
+    if isinstance(v, bytes) and not isinstance(v, str):
+        return v.decode("latin-1")
+    if isinstance(v, (text_type, str, int, float, bool)) or v is None:
+        return v
+    return "%s:%s" % (type(v).__name__, v)
+
+
+def tables():
+    """the package's own module-level data (public names): its constant tables"""
+    import decimal
+    out = {}
+    for name in sorted(sys.modules):
+        mod = sys.modules[name]
+        if mod is None or not (name == "cvss" or name.startswith("cvss.")):
+            continue
+        for k in sorted(vars(mod)):
+            v = vars(mod)[k]
+            if k.startswith("_"):
+                continue
+            if isinstance(v, (dict, list, tuple, set, frozenset, text_type, str, int, float, decimal.Decimal)):
+                out[name + "." + k] = _freeze(v)
+    return out
+
+
 def main():
     with io.open(sys.argv[1], encoding="utf-8") as f:
         inp = json.load(f)
@@ -251,6 +285,7 @@ def main():
         out["import_error"] = "%s: %s" % (type(e).__name__, e)
         _dump(out)
         return
+    out["tables_before"] = tables()          # right after the import, before the first call
     items = inp["items"]
     idx = list(range(len(items)))
     if inp.get("order_seed") is not None:
@@ -261,6 +296,7 @@ def main():
         results[i] = evaluate(items[i])
     out["results"] = results
     out["ambient_after"] = ambient()
+    out["tables_after"] = tables()
     _dump(out)
 
 
